@@ -22,6 +22,7 @@ import (
 	"github.com/rs/zerolog"
 
 	"github.com/dadrus/heimdall/internal/handler/requestcontext"
+	"github.com/dadrus/heimdall/internal/heimdall"
 	"github.com/dadrus/heimdall/internal/rules/rule"
 )
 
@@ -46,7 +47,7 @@ type requestContext struct {
 
 func (r *requestContext) Finalize(_ rule.Backend) error {
 	if err := r.PipelineError(); err != nil {
-		return err
+		return heimdall.WithAuthenticationChallenge(err, r.UpstreamHeaders())
 	}
 
 	zerolog.Ctx(r.AppContext()).Debug().Msg("Creating response")
